@@ -62,11 +62,14 @@ STYLES = {
     "iterm2w": ("wezterm", "ITerm2Image", "graphics"),
     "iterm2k": ("konsole", "ITerm2Image", "graphics"),
 }
-# size ids: A = exactly the source pixels (no resize needed), B = smaller, U = upscaled, D = dynamic FIT
+# size ids: A = exactly the source pixels (no resize needed), B = smaller, U = upscaled, D = dynamic FIT,
+# W / H = fixed sizes wider / higher than both terminals: every size-validating draw() must refuse them
+# (InvalidSizeError) and leave nothing open; format / str / iteration do not validate and still render
 SIZES = {
-    "block": {"A": (4, 3), "B": (2, 1), "D": "FIT"},
-    "graphics": {"A": (2, 2), "B": (1, 1), "U": (4, 4), "D": "FIT"},
+    "block": {"A": (4, 3), "B": (2, 1), "D": "FIT", "W": (14, 3), "H": (4, 9)},
+    "graphics": {"A": (2, 2), "B": (1, 1), "U": (4, 4), "D": "FIT", "W": (14, 2), "H": (2, 9)},
 }
+OVERSIZE = ("W", "H")
 TERMS = {"L": (COLS, ROWS), "S": (9, 6)}      # terminal sizes of the "term" operation (a resize)
 ROUTES = {"gif": "/anim.gif", "apng": "/anim.png", "png": "/still.png"}
 
@@ -635,14 +638,19 @@ def judge(S, op, c):
                 S.stop = True
     elif name in ("draw_still", "draw_anim", "draw_int"):
         if M.closed:
-            expect_exc("TermImageError")
+            # (a finalized image that does not fit either: which of the two refusals comes first is not specified)
+            expect_exc(*(("TermImageError", "InvalidSizeError") if M.size in OVERSIZE else ("TermImageError",)))
+        elif M.size in OVERSIZE:
+            expect_exc("InvalidSizeError")
         elif bad_pos and name == "draw_still":
             pass
         elif exc is not None:
             unexpected("a completed draw")
     elif name == "draw_bad":
         if M.closed:
-            expect_exc("TermImageError")
+            expect_exc(*(("TermImageError", "InvalidSizeError") if M.size in OVERSIZE else ("TermImageError",)))
+        elif M.size in OVERSIZE:    # two reasons to refuse; the order of the checks is not specified
+            expect_exc("InvalidSizeError", "StyleError" if op[1] == "style" else "ValueError")
         else:
             expect_exc("StyleError" if op[1] == "style" else "ValueError")
     elif name == "it_new":
@@ -1195,6 +1203,11 @@ def build_cfgs(tier):
             for rep, cached in ((1, False), (2, True), (2, False), (-1, True)):
                 add("file:gif", style, "A", rep, SPECS[style][0], cached, depth=9, faults=False,
                     alphabet=dict(sizes=("A", "B"), draw_anim=(), draw_bad=(), img_seek=(1,), only_iter=True))
+            # sizes that do not fit the terminal: refused draws must leave nothing open, size and frame untouched
+            for src, size0, sizes in (("file:gif", "W", ("A", "H")), ("url:gif", "H", ("A", "W")),
+                                     ("file:png", "A", ("W", "H")), ("pil:gif", "W", ("H",))):
+                add(src, style, size0, 2, SPECS[style][0], True, depth=2,
+                    alphabet=dict(sizes=sizes, draw_anim=(1,), draw_int=(2,), terms=("S",)))
         for style in ("block", "iterm2w"):
             add("file:gif", style, "A", 2, SPECS[style][0], True, depth=2, guard=2,
                 alphabet=dict(sizes=("A", "B"), draw_anim=(1,)))
@@ -1242,6 +1255,12 @@ def build_cfgs(tier):
                 for spec in specs:
                     add(src, style, "A", 1, spec, False, depth=3, alphabet=dict(sizes=("A", "B", "D"), reclose=1),
                         all_kinds=True)
+            # (T7) sizes that do not fit the terminal (refused by every size-validating draw)
+            for src in anim_srcs + still_srcs:
+                for size0, sizes in (("W", ("A", "H", "D")), ("H", ("A", "W")), ("A", ("W", "H"))):
+                    add(src, style, size0, 2, specs[0], True, depth=3,
+                        alphabet=dict(sizes=sizes, draw_anim=(1,), draw_int=(2,), terms=("S",), reclose=1,
+                                      draw_bad=("repeat", "style", "cached")))
             # (T6) soundness of the state merging: merged search == enumeration of all histories
             add("file:gif", style, "A", 2, specs[0], True, depth=3, guard=3,
                 alphabet=dict(sizes=("A", "B"), draw_anim=(1,)))
